@@ -491,6 +491,7 @@ mod unstable {
                                         for ivar in inner_vars.iter() {
                                             if ovar.sort == Sort::General
                                                 && ivar.sort == Sort::Integer
+                                                && !inner_vars.contains(ovar)
                                             {
                                                 let replacement_result =
                                                     replacement_helper(ivar, ovar, comp, &formula);
@@ -550,6 +551,7 @@ mod unstable {
                                     for ivar in inner_vars.iter() {
                                         if ovar.sort == Sort::General
                                             && ivar.sort == Sort::Integer
+                                            && !inner_vars.contains(ovar)
                                             && !rhs.free_variables().contains(ovar)
                                         {
                                             let replacement_result =
